@@ -140,6 +140,8 @@ func exec(op string) vlib.Res {
 		return pipeNew(f[2], csvU32(f[3]), f[5:]...)
 	case "pipe query":
 		return pipeQuery(vlib.Atoi(f[2]), f[3] == "t", f[4] == "t", f[5], vlib.Atoi(f[6]), vlib.Atoi(f[7]))
+	case "pipe rho":
+		return pipeRho(vlib.Atoi(f[2]), vlib.Atoi(f[3]), vlib.Atoi(f[4]), f[5] == "t", f[6])
 	case "pipe late":
 		return pipeLate(vlib.Atoi(f[2]), vlib.Atoi(f[3]), vlib.Atoi(f[4]), vlib.Atoi(f[5]))
 	case "pipe chain":
